@@ -45,7 +45,10 @@ def input_class(info, ev):
     cls = "general"
     rows = (ev or {}).get("src", [])
     pal = (ev or {}).get("pal", [])
-    if what == "fg" and s[3] & 1 and s[1] < 8:
+    if ev and ev.get("head3") == [239, 187, 191]:
+        cls = "file-begins-with-utf8-bom"                     # the first three cells are CP437 0xEF 0xBB 0xBF and the writer emits nothing before them
+        what = "ch"
+    elif what == "fg" and s[3] & 1 and s[1] < 8:
         cls = "bold-attribute-on-low-colour"                  # bold cell with fg 0..7 shows bright; the writer drops the bold
     elif what in ("blink", "bg") and _blank(s[0]) and s[3] & 2 and s[2] == 0 and o.get("compress") and not o.get("preserve") and ev \
             and all(_cell(rows, xx, y) [1:] == s[1:] and _blank(_cell(rows, xx, y)[0]) for xx in range(x, len(rows[y]) if y < len(rows) else 0)):
